@@ -14,7 +14,8 @@ TRUSTED = ["C14 module Binary64: Coq standard-library axioms of the real numbers
 CHECK_MODULE = "Check.C14"
 COQ_IMPORTS = "Model.Window"
 SHARD = 150
-RULE = ("tick-aligned geometries (binary grid, exact tier): constructor validation over duration, step in -1..4, "
+RULE = ("[also: window(support) repeated with other start / end settings of the called window, next() on fresh windows and copies, open-ended support segments] " +
+        "tick-aligned geometries (binary grid, exact tier): constructor validation over duration, step in -1..4, "
         "end-start in -1..3; every window with duration, step in 1..4 ticks, start in -2..2, end-start in 1..10 or "
         "infinite (quick; 1..5 and 1..14 thorough) observed through window[i] for i in -3..N+3, list() twice "
         "(restart), len(), copy(), closest_frame at every half tick around the positions, range_to_segment, "
